@@ -200,6 +200,9 @@ def eval_stmt(s, env):
     if op == "bcast":
         shp = tuple(a[0].shape[0] if d == "B" else d for d in kw["shape"])
         return jnp.broadcast_to(a[0], shp)
+    if op == "bcast_in_dim":
+        shp = tuple(a[0].shape[0] if d == "B" else d for d in kw["shape"])
+        return lax.broadcast_in_dim(a[0], shp, tuple(kw["dims"]))
     if op == "concat":
         return jnp.concatenate(a, axis=kw["axis"])
     if op == "stack":
@@ -459,7 +462,7 @@ class PB:
         if "ew" in allow:
             fams += ["un", "bin", "bin", "cmp", "where", "clip"]
         if "shape" in allow and len(shape) >= 1:
-            fams += ["transpose", "reshape", "expand", "slice", "concat", "flip", "bcast", "pad", "tile", "squeeze", "stack", "swapaxes"]
+            fams += ["transpose", "reshape", "expand", "slice", "concat", "flip", "bcast", "bcast_in_dim", "pad", "tile", "squeeze", "stack", "swapaxes"]
         if "red" in allow and len(shape) >= 1:
             fams += ["red", "red", "argred"]
         if "linalg" in allow and dt == F and len(shape) >= 1:
@@ -587,6 +590,14 @@ class PB:
                 return None
             tg = d(st.sampled_from(cands))
             return self.emit("bcast", [src], dt, tg, {"shape": list(tg)})
+        if fam == "bcast_in_dim" and static(shape) and 1 <= len(shape) <= 2:
+            # rank-changing lax.broadcast_in_dim; size-1 operand axes may be mapped to larger result axes
+            new_axis = d(st.sampled_from([2, 4]))
+            res = [new_axis] + [x if x != 1 else d(st.sampled_from([1, 3])) for x in shape]
+            dims = list(range(1, len(shape) + 1))
+            if d(st.booleans()):
+                res = ["B"] + res[1:] if any(isinstance(x, str) for _, (dd, ss) in self.vals.items() for x in ss) and False else res
+            return self.emit("bcast_in_dim", [src], dt, tuple(res), {"shape": res, "dims": dims})
         if fam == "pad" and static(shape) and dt != B:
             widths = [[d(st.integers(0, 1)), d(st.integers(0, 2))] for _ in shape]
             shp = tuple(n + w[0] + w[1] for n, w in zip(shape, widths))
